@@ -470,6 +470,67 @@ func runC12(env *lib.Env, rep *lib.Report) {
 			}
 		}
 	}
+	// a page read back from its encoding is a node like any other: the same further operations (more cells
+	// inserted, then every cell updated) must give the same node as on the original - starting from the empty leaf
+	for n0 := 0; n0 <= 3; n0++ {
+		for more := 1; more <= 3; more++ {
+			for _, size := range []int{0, 7, 120} {
+				keys, sz, del := mk(n0, 40)
+				for i := range sz {
+					sz[i] = size
+				}
+				l := &c12Leaf{keys: keys, sizes: sz, deleted: del, lsn: 2, off: 12288}
+				orig := l.build()
+				buf, err := orig.encode()
+				if err != nil {
+					panic(lib.HarnessError{Msg: "encode: " + err.Error()})
+				}
+				back := &btreeNode{isLeaf: true}
+				if err := back.decode(bytes.NewBuffer(append([]byte{}, buf.Bytes()...))); err != nil {
+					rep.AddFailure(&lib.Failure{Kind: "decode-error", Detail: fmt.Sprintf("leaf of %d cells: %v", n0, err), Trace: []string{"ops-after-decode"}})
+					continue
+				}
+				back.fileOffset = 12288
+				desc := fmt.Sprintf("leaf of %d cells of %d bytes read back from its page, %d more cells inserted, every cell updated", n0, size, more)
+				r.prog.Set("shape", desc)
+				problem := ""
+				func() {
+					defer func() {
+						if x := recover(); x != nil {
+							problem = fmt.Sprintf("panic: %v", x)
+						}
+					}()
+					for _, node := range []*btreeNode{orig, back} {
+						for j := 0; j < more; j++ {
+							key := uint32(40 + n0 + j)
+							pos, _ := node.findCellOffsetByKey(key)
+							if err := node.insertLeafCell(uint32(pos), key, c12Value(size+j, key)); err != nil {
+								problem = "insertLeafCell: " + err.Error()
+								return
+							}
+						}
+						for j := 0; j < n0+more; j++ {
+							if err := node.updateCell(uint32(40+j), c12Value(size+3, uint32(90+j))); err != nil {
+								problem = "updateCell: " + err.Error()
+								return
+							}
+						}
+						node.markDirty(9)
+					}
+				}()
+				if problem == "" {
+					if a, b := c12Logical(orig), c12Logical(back); a != b {
+						problem = "the node read back became " + b + ", the original became " + a
+					}
+				}
+				if problem != "" {
+					rep.AddFailure(&lib.Failure{Kind: "ops-after-decode", Detail: desc + ": " + problem, Trace: []string{desc}})
+					continue
+				}
+				r.check(desc, back, true, true)
+			}
+		}
+	}
 	// a refused update (value over the limit) must leave the page exactly as it was
 	for n := 1; n <= 4; n++ {
 		for _, from := range []int{0, 2, 100, 400} {
